@@ -1077,14 +1077,9 @@ func (m *Model) applyOutputs(h uint32, tx PTx, ref string) {
 	}
 	for _, o := range tx.Outs {
 		if o.To == burn {
-			if h >= m.Era.V202 {
-				m.Flags["burn-output"]++
-				continue
-			}
-			// before 2.0.2 an output to the all-zero address is debited and never credited (finding)
-			if FindingStatus("C04/zero-address-output") != "fixed" {
-				m.Unspec = append(m.Unspec, "C04/zero-address-output")
-			}
+			// S(C04): outputs to the burn address of the era are destroyed, not credited.
+			// Before 2.0.2 the burn address is FA1y5ZGu… — the all-zero RCD hash.
+			m.Flags["burn-output"]++
 			continue
 		}
 		m.credit(h, "transfer-out", "C04", hexAddr(o.To), tx.Asset, o.Amt, ref)
